@@ -112,8 +112,24 @@ LayoutInputs ==
               /\ (y[4] # <<>> \/ SafeAdjacent(y[1], y[2]))
               /\ ~(y[1] = Op("not") /\ y[2] = Op("in"))}}     \* `not` followed by `in` is the one token `not in`
 
+(* bigvals: spelling schemes for magnitudes TLC cannot hold (up to 2^63 - 1, every finite  *)
+(* float64).  The case is the scheme; the harness draws the values (extrema and seeded     *)
+(* random ones), writes them in the scheme and expects the class named here and the value  *)
+(* it drew.  (The machine runs on the scheme's sample spelling.)                            *)
+Scheme(class, base, prefix, upper, group, fmt, sample) ==
+  [src |-> Chars(sample),
+   m |-> [kind |-> "scheme", class |-> class, base |-> base, prefix |-> prefix, upper |-> upper, group |-> group, fmt |-> fmt]]
+SchemeInputs ==
+  {Scheme("int", 10, "", "lower", 0, "", "1234567"), Scheme("int", 10, "", "lower", 3, "", "1_234_567"),
+   Scheme("int", 16, "0x", "lower", 0, "", "0x1e2f"), Scheme("int", 16, "0x", "upper", 0, "", "0x1E2F"),
+   Scheme("int", 16, "0X", "upper", 0, "", "0X1E2F"), Scheme("int", 16, "0X", "lower", 4, "", "0X1e_2f3b"),
+   Scheme("int", 16, "0x", "mixed", 4, "", "0x1E_2f3B"),
+   Scheme("float", 10, "", "lower", 0, "e", "1.5e+10"), Scheme("float", 10, "", "upper", 0, "E", "1.5E+10"),
+   Scheme("float", 10, "", "lower", 0, "f", "15000000000.5"), Scheme("float", 10, "", "lower", 0, "g", "1.5e-07")}
+
 Inputs ==
   CASE LexFamily = "strlit" -> StrInputs
+    [] LexFamily = "bigvals" -> SchemeInputs
     [] LexFamily = "numlit" -> NumInputs
     [] LexFamily = "layout" -> LayoutInputs
     [] OTHER -> {[src |-> s, m |-> [kind |-> "none"]] : s \in AllSeqs(Alpha, LexMaxLen)}
@@ -133,6 +149,7 @@ Agrees ==
       [] meta.kind = "num" ->
            Outcome.ok /\ NonEOF(Outcome.toks) = <<[k |-> "Number", v |-> input, line |-> 1, col |-> 0]>>
       [] meta.kind = "layout" -> Outcome.ok /\ NonEOF(Outcome.toks) = meta.toks
+      [] meta.kind = "scheme" -> Outcome.ok /\ NonEOF(Outcome.toks) = <<[k |-> "Number", v |-> input, line |-> 1, col |-> 0]>>
       [] OTHER -> TRUE
 
 (* the reference decoding inverts the reference spelling *)
